@@ -44,16 +44,18 @@ const fn chunks_@S@<const K: usize, const L: usize>() -> Out where Const<K>: Int
     if K == 0 { assert!(L == 0 && c.len() == 0 && r.len() == 0); return (0, 0, 0, 0, 0); }
     assert!(c.len() == L / K);
     assert!(r.len() == L % K);
-    let off = off_@S@(r.as_ptr(), src.as_ptr());
+    // offsets are only taken for non-empty parts: where an empty part points is not pinned (C10), and offset_from on
+    // pointers into different allocations would be OUR error, not the crate's
+    let off = if r.len() > 0 { off_@S@(r.as_ptr(), src.as_ptr()) } else { ((L / K) * K) as isize };
     assert!(off == ((L / K) * K) as isize || @ZST@);
-    assert!(off_@S@(c.as_ptr() as *const @T@, src.as_ptr()) == 0);
+    assert!(c.len() == 0 || off_@S@(c.as_ptr() as *const @T@, src.as_ptr()) == 0);
     let mut k = 0;
     while k < c.len() { let ch = c[k].as_slice(); assert!(ch.len() == K); let mut m = 0; while m < K { assert!(cv_@S@(&ch[m]) == cv_@S@(&src[k * K + m])); m += 1; } k += 1; }
     let mut j = 0;
     while j < r.len() { assert!(cv_@S@(&r[j]) == cv_@S@(&src[(L / K) * K + j])); j += 1; }
     let flat = GA::<@T@, N<K>>::slice_from_chunks(c);
     assert!(flat.len() == (L / K) * K);
-    assert!(off_@S@(flat.as_ptr(), src.as_ptr()) == 0);
+    assert!(flat.len() == 0 || off_@S@(flat.as_ptr(), src.as_ptr()) == 0);
     (c.len(), r.len(), dg_@S@(flat), dg_@S@(r), off)
 }
 
@@ -66,7 +68,7 @@ const fn chunks_mut_@S@<const K: usize, const L: usize>() -> Out where Const<K>:
         let (c, r) = GA::<@T@, N<K>>::chunks_from_slice_mut(&mut src);
         nc = c.len(); nr = r.len();
         assert!(nc == L / K && nr == L % K);
-        assert!(off_@S@(r.as_ptr(), base) == ((L / K) * K) as isize || @ZST@);
+        assert!(nr == 0 || off_@S@(r.as_ptr(), base) == ((L / K) * K) as isize || @ZST@);
         let mut k = 0;
         while k < nc { let ch = c[k].as_mut_slice(); let mut m = 0; while m < K { ch[m] = mk_@S@(1000 + k * K + m); m += 1; } k += 1; }
         let mut j = 0;
